@@ -264,6 +264,8 @@ def scanl_probe(art):
     L.append('%%')
     return ('%option caseless\n' if sp.caseless else '') + '\n'.join(L) + '\n', k
 
+C99_PROBES = ('escapes', 'nulshare', 'kw', 'anchors')
+
 def language_variants(thorough=False, art=None):
     out = []
     probes = dict(LANG)
@@ -280,4 +282,8 @@ def language_variants(thorough=False, art=None):
                 opts = ['noyywrap', '8bit'] + topts + (['reject'] if rej else [])
                 spec = ''.join('%%option %s\n' % o for o in opts) + body.lstrip('\n')
                 out.append(variants.Variant('lang_%s_%s%s' % (name, tn, '_rej' if rej else ''), 'nr', (), opts, raw_spec=spec))
+                # the c99 back end prints its own copies of the tables: a few probes, the representations with NUL handling
+                if name in C99_PROBES and not rej and tn in ('Cem', 'Cf', 'Cfe', 'CF'):
+                    spec99 = '%option emit="c99"\n' + spec
+                    out.append(variants.Variant('lang_%s99_%s' % (name, tn), 'c99', (), opts, raw_spec=spec99))
     return out
